@@ -483,7 +483,8 @@ CLAIM = {
     "technique": "symbolic effect summaries (abstract interpretation with polynomial normal forms) of Position._on_executed_order and the FuturesExchange handlers vs a reference average-cost margin account, per sign/magnitude/reduce_only case",
     "text": "Static. The fill path (Position._on_executed_order with all _mutating_* methods, estimate_PNL, estimate_average_price, "
             "charge_fee, add_realized_pnl, _update_qty) is interpreted from /repo's source for every sign pattern of position and "
-            "order, magnitude relation and reduce_only flag; wallet, size and average entry must equal the reference account's as "
+            "order, magnitude relation and reduce_only flag; wallet (fee on the FILLED quantity: a reduce-only order fills at most the "
+            "position it reduces), size and average entry must equal the reference account's as "
             "polynomials (hence for all quantities, prices, fees), with the right trade open/close bookkeeping and one strategy "
             "notification after the update. The three FuturesExchange handlers are interpreted on the repository's own "
             "DynamicNumpyArray tables: rejection exactly when notional/leverage exceeds the (formula-checked) available margin, "
